@@ -54,6 +54,9 @@ def body(chk):
     from harness import sessioncheck
 
     sessioncheck.standard(chk)
+    from harness import envrun
+
+    envrun.run(chk, {"leader", "spurious_error"})
     chk.finish(
         rule="a case = one product whose ~900 leader fields all hold tokens of rotating classes; 12 rotation plans make every "
              "field meet every class; x record variants; + seeded random class assignments; evaluations = leaves compared; "
